@@ -254,6 +254,35 @@ func (c *Ctx) PaletteResizeCopiesAll() []core.Ob {
 			continue
 		}
 		found = true
+		// every iteration copies: a Set call of the loop lies in a block that dominates each
+		// block jumping back to the header (no `continue` / condition around the copy)
+		everyIter := false
+		for b := range lp.body {
+			isCopy := false
+			for _, in := range b.Instrs {
+				if ci, ok := in.(ssa.CallInstruction); ok {
+					if sc := ci.Common().StaticCallee(); sc != nil && core.Origin(sc) == set {
+						isCopy = true
+					}
+				}
+			}
+			if !isCopy {
+				continue
+			}
+			all := true
+			for _, latch := range lp.header.Preds {
+				if lp.body[latch] && !(b == latch || b.Dominates(latch)) {
+					all = false
+				}
+			}
+			if all {
+				everyIter = true
+			}
+		}
+		if !everyIter {
+			o.Status, o.Got = core.Violated, "the copy inside the loop is conditional: some positions are left at the new storage's zero value instead of being re-inserted"
+			continue
+		}
 		iff, ok := lp.header.Instrs[len(lp.header.Instrs)-1].(*ssa.If)
 		if !ok {
 			o.Status, o.Got = core.Violated, "copy loop has no guard in its header"
